@@ -15,7 +15,30 @@ import (
 // go/ssa does no CSE, so repeated loads of one field path render identically (and are
 // treated as one term by the rules that compare renders — sound only where no store to
 // that path intervenes, which the rules that rely on it check separately).
-func Render(v ssa.Value) string { return render(v, 0) }
+func Render(v ssa.Value) string { return renderWith(v, nil) }
+
+// RenderOnPath renders v with phis and spilled local cells resolved along the given path.
+func RenderOnPath(v ssa.Value, p *Path) string {
+	return renderWith(v, func(x ssa.Value) ssa.Value {
+		for i := 0; i < 6; i++ {
+			y := resolvePhi(spillOnPath(x, p.Blocks), p.Blocks)
+			if y == x {
+				break
+			}
+			x = y
+		}
+		return x
+	})
+}
+
+var curResolver func(ssa.Value) ssa.Value
+
+func renderWith(v ssa.Value, r func(ssa.Value) ssa.Value) string {
+	old := curResolver
+	curResolver = r
+	defer func() { curResolver = old }()
+	return render(v, 0)
+}
 
 func render(v ssa.Value, depth int) string {
 	if v == nil {
@@ -23,6 +46,9 @@ func render(v ssa.Value, depth int) string {
 	}
 	if depth > 12 {
 		return "…"
+	}
+	if curResolver != nil {
+		v = curResolver(v)
 	}
 	switch x := v.(type) {
 	case *ssa.Const:
@@ -301,9 +327,9 @@ func EnumPaths(fn *ssa.Function, max int) (paths []*Path, overflow bool) {
 		case *ssa.Return:
 			p := &Path{Atoms: s.atoms, Blocks: s.blocks, Return: x}
 			for _, r := range x.Results {
-				rv := resolvePhi(Unspill(r), s.blocks)
+				rv := resolvePhi(spillOnPath(r, s.blocks), s.blocks)
 				p.ResVals = append(p.ResVals, rv)
-				p.Results = append(p.Results, Render(rv))
+				p.Results = append(p.Results, RenderOnPath(rv, p))
 			}
 			paths = append(paths, p)
 		case *ssa.Panic:
@@ -392,4 +418,56 @@ func SortedKeys[V any](m map[string]V) []string {
 	}
 	sort.Strings(out)
 	return out
+}
+
+// spillOnPath resolves a load of a local result cell (go/ssa spills results of functions
+// with defers) to the value last stored into it on the given path.
+func spillOnPath(v ssa.Value, blocks []*ssa.BasicBlock) ssa.Value {
+	u, ok := v.(*ssa.UnOp)
+	if !ok || u.Op != token.MUL {
+		return v
+	}
+	al, ok := u.X.(*ssa.Alloc)
+	if !ok {
+		return v
+	}
+	for _, r := range *al.Referrers() {
+		switch x := r.(type) {
+		case *ssa.Store:
+			if x.Addr != ssa.Value(al) {
+				return v
+			}
+		case *ssa.UnOp, *ssa.DebugRef:
+		default:
+			return v
+		}
+	}
+	// walk the path backwards from the load's own position
+	at := -1
+	for i := len(blocks) - 1; i >= 0; i-- {
+		if blocks[i] == u.Block() {
+			at = i
+			break
+		}
+	}
+	if at < 0 {
+		return v
+	}
+	for i := at; i >= 0; i-- {
+		b := blocks[i]
+		start := len(b.Instrs) - 1
+		if i == at {
+			for j, in := range b.Instrs {
+				if in == ssa.Instruction(u) {
+					start = j
+				}
+			}
+		}
+		for j := start; j >= 0; j-- {
+			if st, ok := b.Instrs[j].(*ssa.Store); ok && st.Addr == ssa.Value(al) {
+				return st.Val
+			}
+		}
+	}
+	return v
 }
